@@ -339,11 +339,24 @@ func isEmptyContainer(e *elem) bool {
 // ---------------------------------------------------------------- decorations
 
 // vectors enumerates decoration vectors for b boundaries. For b <= fullB: all
-// nd^b vectors, nd = the whole 9-element alphabet when b <= 4, the 7-element
+// nd^b vectors, nd = the whole alphabet when b <= extFullB (3 quick, 4 thorough), the 7-element
 // base alphabet above that (then followed by every vector with <= 2 decorated
 // boundaries that uses an extended element). For b > fullB: every vector over
 // the whole alphabet with at most maxDec decorated boundaries, fewest first.
 // It calls f(vec, ndecorated); vec is reused.
+// tierAlphabet: the quick tier leaves out the last two extended decorations ("///", "/***/") and the final "//*"
+func tierAlphabet(c *hl.Ctx) {
+	if c.Thorough() {
+		extFullB = 4
+		return
+	}
+	jsonref.Decorations = jsonref.Decorations[:13]
+	jsonref.Finals = jsonref.Finals[:3]
+}
+
+// extFullB: up to this many boundaries every vector over the whole (base + extended) alphabet is enumerated
+var extFullB = 3
+
 func vectors(b, fullB, maxDec int, f func(vec []uint8, ndec int) bool) {
 	vec := make([]uint8, b)
 	all := len(jsonref.Decorations)
@@ -373,7 +386,7 @@ func vectors(b, fullB, maxDec int, f func(vec []uint8, ndec int) bool) {
 	}
 	if b <= fullB {
 		nd := jsonref.BaseDecorations
-		if b <= 4 {
+		if b <= extFullB {
 			nd = all
 		}
 		for {
@@ -841,7 +854,8 @@ var countOnly = os.Getenv("C17_COUNT") != ""
 var verifyDistinct = os.Getenv("C17_VERIFY_DISTINCT") != ""
 
 func run(c *hl.Ctx) {
-	c.Rule("E3 bounded-exhaustive. Documents (deduplicated by text): family S = every string of <=3 elements of the hostile alphabet as top-level value, array element, object key, object member value (+ the same strings spelled with the alternative \\uXXXX and \\/ escapes); family P = every ordered pair of strings of <=2 elements as [s,t] and {s:t}; family T = every value tree of depth<=2 over the atom/filler/key alphabets (bounds in info.families). Each document x decoration vector over the decoration alphabet (7 base + 2 extended elements) at every token boundary (all 9^b vectors for b<=4, all 7^b base vectors plus every <=2-decorated vector using an extended element for 4<b<=full bound, otherwise every vector over the 9 elements with at most max decorated boundaries) x final unterminated line comment {none, //c, //} x reads {whole, data+EOF in one call, 1-byte, every 2-split}. Family size = documents of 65535..262145 bytes made of one long string / number run / space run / block comment / line comment / many short strings x {plain, line comment before the last token, final //c} x read modes. distinct_nontrivial = number of distinct decorated texts containing at least one comment that went through the oracle (documents are deduplicated by their text before sharding; distinct decoration vectors of one token list give distinct texts by construction; read modes are not counted).")
+	tierAlphabet(c)
+	c.Rule("E3 bounded-exhaustive. Documents (deduplicated by text): family S = every string of <=3 elements of the hostile alphabet as top-level value, array element, object key, object member value (+ the same strings spelled with the alternative \\uXXXX and \\/ escapes); family P = every ordered pair of strings of <=2 elements as [s,t] and {s:t}; family T = every value tree of depth<=2 over the atom/filler/key alphabets (bounds in info.families). Each document x decoration vector over the decoration alphabet (7 base + 8 extended elements, 6 of them in the quick tier: openers overlapping each other, text ending in a backslash, ...) at every token boundary (all 15^b vectors for b<=3 (thorough 4), all 7^b base vectors plus every <=2-decorated vector using an extended element above that up to the full bound, otherwise every vector over the 15 elements with at most max decorated boundaries) x final unterminated line comment {none, //c, //} (thorough also //*) x reads {whole, data+EOF in one call, 1-byte, every 2-split}. Family size = documents of 65535..262145 bytes made of one long string / number run / space run / block comment / line comment / many short strings x {plain, line comment before the last token, final //c} x read modes. distinct_nontrivial = number of distinct decorated texts containing at least one comment that went through the oracle (documents are deduplicated by their text before sharding; distinct decoration vectors of one token list give distinct texts by construction; read modes are not counted).")
 	c.Assume("encoding/json is the reference decoder for the undecorated text", "the reference tokenizer (RFC 8259 lexical grammar) agrees with the generator on every generated document (self-checked on every document)",
 		"comments are only placed between tokens; only // and /* */ comments are used; documents are valid JSON")
 	c.Info("string_alphabet", strAlphabet)
@@ -1041,6 +1055,8 @@ func replay(c *hl.Ctx, raw stdjson.RawMessage) {
 	if err := stdjson.Unmarshal(raw, &cs); err != nil {
 		panic(err)
 	}
+	c.Tier = "thorough" // the full alphabets, so that indices of thorough cases resolve
+	tierAlphabet(c)
 	if cs.Big != nil {
 		evalBig(c, *cs.Big, cs.Mode)
 		return
